@@ -184,6 +184,8 @@ fn native_udp_recv_from(vm: &mut VM, args: &[Value]) -> Result<Value, RuntimeErr
         ));
     }
 
+    // the result can be as long as the buffer: consult the heap limit before the buffer is built
+    vm.check_string_capacity(max as usize)?;
     if let Some(Resource::UdpSocket(res)) = vm.get_resource(handle) {
         let mut buffer = vec![0u8; max as usize];
         match res.socket.recv_from(&mut buffer) {
@@ -270,6 +272,8 @@ fn native_udp_recv(vm: &mut VM, args: &[Value]) -> Result<Value, RuntimeError> {
         ));
     }
 
+    // the result can be as long as the buffer: consult the heap limit before the buffer is built
+    vm.check_string_capacity(max as usize)?;
     if let Some(Resource::UdpSocket(res)) = vm.get_resource(handle) {
         let mut buffer = vec![0u8; max as usize];
         match res.socket.recv(&mut buffer) {
@@ -374,43 +378,56 @@ fn native_recv(vm: &mut VM, args: &[Value]) -> Result<Value, RuntimeError> {
     require_net(vm, "net.recv")?;
     let handle = get_handle(vm, args[0], "net.recv")?;
 
-    if let Some(Resource::TcpStream(res)) = vm.get_resource_mut(handle) {
-        let mut buffer = vec![0u8; 65536];
-
-        if res.timeout_ms.is_none() {
-            let _ = res
-                .stream
-                .set_read_timeout(Some(Duration::from_millis(100)));
-        }
-
-        let mut all_data = Vec::new();
-        loop {
-            match res.stream.read(&mut buffer) {
-                Ok(0) => break,
-                Ok(n) => {
-                    if all_data.len() + n > MAX_RECV_SIZE {
-                        break;
-                    }
-                    all_data.extend_from_slice(&buffer[..n]);
-                    if n < buffer.len() {
-                        break;
-                    }
-                }
-                Err(ref e) if e.kind() == std::io::ErrorKind::WouldBlock => break,
-                Err(ref e) if e.kind() == std::io::ErrorKind::TimedOut => break,
-                Err(_) => break,
-            }
-        }
-
-        if res.timeout_ms.is_none() {
-            let _ = res.stream.set_read_timeout(None);
-        }
-
-        let s = String::from_utf8_lossy(&all_data);
-        Ok(make_string(vm, &s)?)
-    } else {
-        Ok(Value::null())
+    const CHUNK: usize = 65536;
+    if !matches!(vm.get_resource(handle), Some(Resource::TcpStream(_))) {
+        return Ok(Value::null());
     }
+    // the chunk buffer and everything that accumulates are checked against the heap limit
+    // before the host is asked for the memory
+    vm.check_string_capacity(CHUNK)?;
+    let mut buffer = vec![0u8; CHUNK];
+    let default_timeout = matches!(vm.get_resource(handle), Some(Resource::TcpStream(res)) if res.timeout_ms.is_none());
+    if default_timeout && let Some(Resource::TcpStream(res)) = vm.get_resource_mut(handle) {
+        let _ = res
+            .stream
+            .set_read_timeout(Some(Duration::from_millis(100)));
+    }
+
+    let mut all_data = Vec::new();
+    let mut refused = None;
+    loop {
+        let read = match vm.get_resource_mut(handle) {
+            Some(Resource::TcpStream(res)) => res.stream.read(&mut buffer),
+            _ => break,
+        };
+        match read {
+            Ok(0) => break,
+            Ok(n) => {
+                if all_data.len() + n > MAX_RECV_SIZE {
+                    break;
+                }
+                if let Err(e) = vm.check_string_capacity(all_data.len() + n) {
+                    refused = Some(e);
+                    break;
+                }
+                all_data.extend_from_slice(&buffer[..n]);
+                if n < buffer.len() {
+                    break;
+                }
+            }
+            Err(_) => break,
+        }
+    }
+
+    if default_timeout && let Some(Resource::TcpStream(res)) = vm.get_resource_mut(handle) {
+        let _ = res.stream.set_read_timeout(None);
+    }
+    if let Some(e) = refused {
+        return Err(e);
+    }
+
+    let s = String::from_utf8_lossy(&all_data);
+    make_string(vm, &s)
 }
 
 /// recv_bytes(handle, max) - Receive up to max bytes.
@@ -438,6 +455,8 @@ fn native_recv_bytes(vm: &mut VM, args: &[Value]) -> Result<Value, RuntimeError>
         ));
     }
 
+    // the result can be as long as the buffer: consult the heap limit before the buffer is built
+    vm.check_string_capacity(max as usize)?;
     if let Some(Resource::TcpStream(res)) = vm.get_resource_mut(handle) {
         let mut buffer = vec![0u8; max as usize];
         match res.stream.read(&mut buffer) {
